@@ -90,6 +90,13 @@ impl Property for C08 {
     fn max_shrink_iters(&self) -> u32 {
         500
     }
+    /// coverage-guided phase: runs per job, set by what one case costs under instrumentation
+    fn fuzz_runs(&self, tier: Tier) -> u64 {
+        match tier {
+            Tier::Quick => 0,
+            Tier::Thorough => 3000,
+        }
+    }
     fn cases(&self, tier: Tier) -> u64 {
         match tier {
             Tier::Quick => 2500,
